@@ -26,7 +26,7 @@ import (
 func guarded(f func() outcome) (o outcome) {
 	defer func() {
 		if x := recover(); x != nil {
-			o = outcome{kind: "panic", err: fmt.Sprint(x)}
+			o = outcome{kind: "panic", err: fmt.Sprint(x), pval: x}
 		}
 	}()
 	return f()
